@@ -6,6 +6,8 @@ package fault
 import (
 	"errors"
 	"fmt"
+	"os"
+	"strings"
 	"sync"
 	"testing"
 
@@ -138,6 +140,7 @@ type histOp struct {
 	logs     []*raft.Log
 	min, max uint64
 	ok       bool
+	head     bool // del only: a head truncation (metadata only; leaves the tail file alone)
 }
 
 // candidatesAfterReopen folds the history: acknowledged ops are applied; each
@@ -183,6 +186,16 @@ func candidatesAfterReopen(base *refmodel.LogModel, hist []histOp) []*refmodel.L
 	return cands
 }
 
+func onlyAcked(h []histOp) []histOp {
+	var out []histOp
+	for _, x := range h {
+		if x.ok {
+			out = append(out, x)
+		}
+	}
+	return out
+}
+
 func sameModel(a, b *refmodel.LogModel) bool {
 	if a.First != b.First || a.Last != b.Last {
 		return false
@@ -204,6 +217,7 @@ type env struct {
 	m      *refmodel.LogModel // in-process model
 	base   *refmodel.LogModel // model as of the last successful open
 	hist   []histOp
+	linger []histOp // failed appends from before the last reopen whose bytes may still be in the tail file
 	stable map[string][]byte
 	gen    uint8
 	// bookkeeping
@@ -282,11 +296,38 @@ func (e *env) run(in *injector) *common.Failure {
 				return common.Failf("reopen-failed", "step %d: Open = %v", step, err)
 			}
 		}
-		cands := candidatesAfterReopen(e.base, e.hist)
+		// Failed appends whose bytes may still lie in the tail file linger across reopens: with
+		// partial writes a later failed call can complete an older one byte for byte (stale bytes
+		// are never wiped, cf. F-STALE), so an old failed call may be applied, in full, only at a
+		// later reopen. The property allows "in full or not at all" without saying when.
+		full := append(append([]histOp{}, e.linger...), e.hist...)
+		cands := candidatesAfterReopen(e.base, full)
+		plain := candidatesAfterReopen(e.base, onlyAcked(full))
 		var firstMsg string
 		for _, c := range cands {
 			sig, msg := kit.CheckAgainst(e.w, c, nil)
 			if sig == "" {
+				appliedFailed := len(plain) == 0 || !sameModel(plain[0], c)
+				lastAck := -1
+				for i, h := range full {
+					if h.ok && !h.head {
+						lastAck = i // an acknowledged append or tail truncation rewrites the tail region
+					}
+				}
+				var linger []histOp
+				if !appliedFailed {
+					for i, h := range full {
+						if i > lastAck && !h.ok && h.kind == "append" {
+							linger = append(linger, h)
+						}
+					}
+				} else {
+					e.cls["failed-call-applied-at-reopen"] = true
+				}
+				if len(linger) > 8 {
+					linger = linger[len(linger)-8:]
+				}
+				e.linger = linger
 				e.m = c.Clone()
 				e.base = c.Clone()
 				e.hist = nil
@@ -311,7 +352,7 @@ func (e *env) run(in *injector) *common.Failure {
 				}
 			}
 		}
-		return common.Failf(sig, "step %d: after reopen the WAL holds [%d,%d]; in-process model was [%d,%d]; %d allowed states, none matches (%s); history since last open: %s", step, f, l, e.m.First, e.m.Last, len(cands), firstMsg, descHist(e.hist))
+		return common.Failf(sig, "step %d: after reopen the WAL holds [%d,%d]; in-process model was [%d,%d]; %d allowed states, none matches (%s); history since last open: %s; lingering failed appends: %s", step, f, l, e.m.First, e.m.Last, len(cands), firstMsg, descHist(e.hist), descHist(e.linger))
 	}
 	for i, op := range e.c.Ops {
 		if e.w == nil && op.K != "reopen" {
@@ -371,7 +412,7 @@ func (e *env) run(in *injector) *common.Failure {
 			if err == nil {
 				e.m.Delete(min, max)
 				e.gen++
-				e.hist = append(e.hist, histOp{kind: "del", min: min, max: max, ok: true})
+				e.hist = append(e.hist, histOp{kind: "del", min: min, max: max, ok: true, head: min <= before.First && max < before.Last})
 				if e.failedCalls > 0 {
 					e.okAfterFailure++
 				}
@@ -408,6 +449,9 @@ func (e *env) run(in *injector) *common.Failure {
 			}
 			e.cls["reopen"] = true
 		}
+		if os.Getenv("VERIF_DEBUG") != "" {
+			fmt.Printf("step %d %s: model [%d,%d] failedCalls=%d hist=%s\n%s", i, op.K, e.m.First, e.m.Last, e.failedCalls, descHist(e.hist), dumpFS(e.fs))
+		}
 		if f := e.inProcessCheck(i, op.K); f != nil {
 			return f
 		}
@@ -441,6 +485,37 @@ func (e *env) run(in *injector) *common.Failure {
 		e.ledger = common.Failf("id-reused-after-retire", "a segment was created with a retired ID: %v", e.fs.CreateRetired)
 	}
 	return nil
+}
+
+func dumpFS(fs *simfs.FS) string {
+	var b strings.Builder
+	st, _ := fs.MetaState()
+	fmt.Fprintf(&b, "  meta next=%d", st.NextSegmentID)
+	for _, si := range st.Segments {
+		fmt.Fprintf(&b, " [id=%d base=%d min=%d max=%d idx=%d sealed=%v]", si.ID, si.BaseIndex, si.MinIndex, si.MaxIndex, si.IndexStart, !si.SealTime.IsZero())
+	}
+	b.WriteString("\n")
+	for _, n := range fs.Names() {
+		c, _ := fs.ReadFile(n)
+		end := len(c)
+		for end > 0 && c[end-1] == 0 {
+			end--
+		}
+		end = (end + 7) / 8 * 8
+		if end > len(c) {
+			end = len(c)
+		}
+		fmt.Fprintf(&b, "  %s len=%d:", n, len(c))
+		for o := 0; o < end && o < 400; o += 8 {
+			e := o + 8
+			if e > len(c) {
+				e = len(c)
+			}
+			fmt.Fprintf(&b, " %x", c[o:e])
+		}
+		b.WriteString("\n")
+	}
+	return b.String()
 }
 
 func descHist(h []histOp) string {
